@@ -421,7 +421,7 @@ def weave_fn(sc, fb, reach=False):
     if fb.lift is not None:
         it, raw = lift_block(fb, it)
     rules = fb.opts.get('rules')
-    rules = rules.split(',') if rules else ['R0', 'R1', 'R7', 'R8', 'R2', 'R3', 'R9', 'R10', 'R11', 'R12', 'R13', 'R15', 'R16', 'R17', 'R18', 'R20', 'R21', 'R22', 'R23', 'R24', 'R25', 'R26', 'R27', 'R28', 'R29', 'R21b', 'R30', 'R31', 'R32', 'R22b', 'R16b', 'R0b', 'R33', 'R34', 'R35', 'R36', 'R37', 'R38', 'R39', 'R40', 'R41', 'R42', 'R43']
+    rules = rules.split(',') if rules else ['R0', 'R1', 'R7', 'R8', 'R2', 'R3', 'R9', 'R10', 'R11', 'R12', 'R13', 'R15', 'R16', 'R17', 'R18', 'R20', 'R21', 'R22', 'R23', 'R24', 'R25', 'R26', 'R27', 'R28', 'R29', 'R21b', 'R30', 'R31', 'R32', 'R22b', 'R16b', 'R0b', 'R33', 'R34', 'R35', 'R36', 'R37', 'R38', 'R39', 'R40', 'R41', 'R42', 'R43', 'R44']
     counts = {}
     try:
         # phase A: line-preserving token rewrites
@@ -535,7 +535,7 @@ def weave_fn(sc, fb, reach=False):
             text, origin = apply_inserts(text, origin, inserts)
             # phase C: loop desugarings (line preserving)
             before = text.count('\n')
-            text, c = desugar(text, [r for r in rules if r in ('R2', 'R3', 'R9', 'R10', 'R11', 'R12', 'R13', 'R15', 'R16', 'R17', 'R18', 'R20', 'R21', 'R22', 'R23', 'R24', 'R25', 'R26', 'R27', 'R29', 'R21b', 'R30', 'R31', 'R32', 'R22b', 'R16b', 'R0b', 'R33', 'R34', 'R35', 'R36', 'R37', 'R38', 'R39', 'R40', 'R41', 'R42', 'R43')])
+            text, c = desugar(text, [r for r in rules if r in ('R2', 'R3', 'R9', 'R10', 'R11', 'R12', 'R13', 'R15', 'R16', 'R17', 'R18', 'R20', 'R21', 'R22', 'R23', 'R24', 'R25', 'R26', 'R27', 'R29', 'R21b', 'R30', 'R31', 'R32', 'R22b', 'R16b', 'R0b', 'R33', 'R34', 'R35', 'R36', 'R37', 'R38', 'R39', 'R40', 'R41', 'R42', 'R43', 'R44')])
             counts.update(c)
             if text.count('\n') != before:
                 raise WeaveError(f'internal: desugaring changed the line count of {fb.path}')
